@@ -959,7 +959,7 @@ def signature(fam, cell, pred):
 
 def run(ctx: Ctx) -> Outcome:
     out = Outcome()
-    out.rule = ("exhaustive enumeration of the construction lattice on the implementation: tensor/Tensor/astensor x 129 "
+    out.rule = ("exhaustive enumeration of the construction lattice on the implementation: tensor/Tensor/astensor x 134 "
                 "sources (Python scalars, lists, nested lists, owning/view/read-only/0-d ndarrays of 15 dtypes, NumPy "
                 "scalars, tensors of 12 dtypes in 8 graph states) x dtype argument (None + 15) x constant "
                 "(None/True/False/non-bool) x copy (default/True/False) x ndmin (negative/0/=ndim/>ndim/non-integer) x "
@@ -1058,5 +1058,6 @@ MANIFEST = {
     "note": "Trusted: Lean kernel; axioms {propext, Quot.sound} at most; the harness that builds each cell's input and maps "
             "results to observations; NumPy's own array creation. Data-dependent cast failures (e.g. str -> float) are "
             "outside the lattice. Tensor.copy() duplicates the gradient as documented, so 'detached' excludes `grad is None` "
-            "for copy().",
+            "for copy(). Two open findings on the unchanged tree (known_findings/C17.json): timedelta64 passes the dtype gate "
+            "while tracking; tensor(t, constant=True, copy=False, ndmin>ndim) drops the constant flag inside no_autodiff.",
 }
